@@ -54,6 +54,8 @@ var c15Alphabet = []c15Op{
 	{kind: "lit", literal: "text/html;charset=utf-8"},
 	{kind: "lit", literal: "Text/HTML"},
 	{kind: "litfunc", literal: " text/css"},
+	// a long type (71 bytes)
+	{kind: "lit", literal: "application/vnd.openxmlformats-officedocument.wordprocessingml.document"},
 }
 
 const c15Reduced = 8
@@ -185,6 +187,12 @@ var c15Queries = []c15Query{
 	wfq("application/json; a=1; b=2; c=3", "application/json", "a", "1", "b", "2", "c", "3"),
 	wfq("text/plain; charset=utf-8", "text/plain", "charset", "utf-8"),
 	wfq("text/x-foo;inline=1", "text/x-foo", "inline", "1"),
+	// strings of more than 64 bytes: long types, long parameter values, parameters behind byte 64
+	wfq("application/vnd.openxmlformats-officedocument.wordprocessingml.document", "application/vnd.openxmlformats-officedocument.wordprocessingml.document"),
+	wfq("application/vnd.openxmlformats-officedocument.wordprocessingml.document+xml", "application/vnd.openxmlformats-officedocument.wordprocessingml.document+xml"),
+	wfq("application/vnd.openxmlformats-officedocument.wordprocessingml.documentx", "application/vnd.openxmlformats-officedocument.wordprocessingml.documentx"),
+	wfq("text/html; charset=utf-8; boundary=----WebKitFormBoundary7MA4YWxkTrZu0gW0123456789abcdef", "text/html", "charset", "utf-8", "boundary", "----WebKitFormBoundary7MA4YWxkTrZu0gW0123456789abcdef"),
+	wfq("application/json; profile=aaaaaaaaaaaaaaaaaaaaaaaaaaaaaaaaaaaaaaaaaaaaaaaaaaaaaaaa; last=z", "application/json", "profile", "aaaaaaaaaaaaaaaaaaaaaaaaaaaaaaaaaaaaaaaaaaaaaaaaaaaaaaaa", "last", "z"),
 	// agreement-only (splitting not specified for these)
 	{s: " text/html"}, {s: "text/html "}, {s: "text/html ; a=b"}, {s: "text/html;"}, {s: "text/html;a"}, {s: "text/html;a="},
 	{s: "text/html; a=b; a=c"}, {s: "text/html;=b"}, {s: "xx"}, {s: ""}, {s: ";"}, {s: "a;b"}, {s: "text/html;a = b"}, {s: "text/html  x"},
@@ -290,7 +298,8 @@ func c15QueryAll(run *core.Run, m *minify.M, model *c15Model, log *c15Log, hist 
 				switch entry {
 				case "ResponseWriter":
 					rec := httptest.NewRecorder()
-					mw := m.ResponseWriter(rec, httptest.NewRequest("GET", "http://example.com/", nil))
+					// (a Content-Type that is set decides, whatever the path of the request looks like)
+					mw := m.ResponseWriter(rec, httptest.NewRequest("GET", "http://example.com"+[]string{"/", "/report.html", "/data.json", "/feed.xml"}[(qi+step+len(body))%4], nil))
 					mw.Header().Set("Content-Type", q.s)
 					mw.Write([]byte(body))
 					eerr = mw.Close()
@@ -446,7 +455,7 @@ func C15(run *core.Run) {
 	if bad := c15CmdCheck(run, false); bad != "" {
 		run.Violation(core.Key("cmd", []byte(bad)), bad, map[string]string{"what": bad})
 	}
-	run.Finish("registration histories: every sequence up to the length bound over a reduced alphabet of 8 overlapping literal/pattern registrations (exhaustive) + seeded random histories up to length 40 over 21 registrations, each followed by all listed media type strings (well-formed ones compared with the reference model, others for Match/Minify agreement); plus AddCmd/AddCmdRegexp registries exercised sequentially and from 8 goroutines; a case is a history; non-trivial = at least two registrations",
+	run.Finish("registration histories: every sequence up to the length bound over a reduced alphabet of 8 overlapping literal/pattern registrations (exhaustive) + seeded random histories up to length 40 over 22 registrations, each followed by all listed media type strings (well-formed ones compared with the reference model, others for Match/Minify agreement); plus AddCmd/AddCmdRegexp registries exercised sequentially and from 8 goroutines; a case is a history; non-trivial = at least two registrations",
 		[]string{"reference model: literal first, then first registered matching pattern, else ErrNotExist; parameters after the first ';'", "media type splitting is only predicted for well-formed strings; for other strings Match and Minify must agree"}, 100, false)
 }
 
